@@ -43,6 +43,8 @@ def boot() -> None:
 
 
 def scratch_root() -> str:
+    if os.environ.get("VMC_SCRATCH") and os.path.isdir(os.environ["VMC_SCRATCH"]):
+        return os.environ["VMC_SCRATCH"]  # per-invocation directory made and removed by ./check
     base = "/dev/shm" if os.path.isdir("/dev/shm") and os.access("/dev/shm", os.W_OK) else tempfile.gettempdir()
     return base
 
